@@ -105,7 +105,7 @@ impl Model for M {
             .map(|_| {
                 let mut c = base_config(self.mode, Type::Tap, 0, &[0]);
                 c.switch_timeout = T as u32;
-                c.peer_timeout = 30;
+                c.peer_timeout = 5; // shorter than the switch timeout: a peer can leave while what was learned from it is still fresh
                 c
             })
             .collect();
@@ -203,17 +203,27 @@ impl Model for M {
             }
             Ev::Drop(node) => {
                 s.net.silenced[*node] = true;
-                for _ in 0..34 {
+                for _ in 0..7 {
                     self.second(s);
                 }
                 for j in 0..self.n {
                     if j != *node && s.net.connected(j, *node) {
-                        return Err(Fail::new("silent_peer_kept", format!("node {} still has silent node {} as peer after 34 s (timeout 30)", j, node)));
+                        return Err(Fail::new("silent_peer_kept", format!("node {} still has silent node {} as peer after 7 s (timeout 5)", j, node)));
+                    }
+                }
+                // what was learned from the departed node must be gone NOW although it is still fresh by age
+                for j in 0..self.n {
+                    if j == *node {
+                        continue;
+                    }
+                    let gone = s.net.addrs[*node];
+                    if let Some(e) = s.net.nodes[j].verif_table().verif_cache().iter().find(|e| e.1 == gone && e.2 >= s.net.now) {
+                        return Err(Fail::new("learned_from_departed_peer", format!("node {} still maps {} to departed node {} ({} s of freshness left)", j, e.0, node, e.2 - s.net.now)));
                     }
                 }
                 s.net.silenced[*node] = false;
                 s.net.queue.clear();
-                for _ in 0..8 {
+                for _ in 0..4 {
                     self.second(s);
                 }
                 // everything learned from, and by, the dropped node is gone (its own peers timed out as well)
@@ -360,7 +370,7 @@ pub fn run(ctx: &Ctx) {
         );
     }
     sweep_list(ctx, "router_learns_nothing", &[RouterCase { rounds: 3 }], SweepOpts { chunk: 1, ..Default::default() }, run_router);
-    ctx.assume("switch timeout 10 s, peer timeout 30 s; every injection happens after the housekeeping sweep of its second, so 'fresh' is exact (no slack needed)");
+    ctx.assume("switch timeout 10 s, peer timeout 5 s; every injection happens after the housekeeping sweep of its second, so 'fresh' is exact (no slack needed)");
     ctx.assume("nested tags: the inner tag is payload for the dissector (covered by C19), the outer tag decides the VLAN");
 }
 
